@@ -9,6 +9,7 @@ import (
 	"regexp"
 	"regexp/syntax"
 	"sort"
+	"strings"
 	"text/template"
 	"unicode"
 	"unicode/utf8"
@@ -79,6 +80,7 @@ var (
 			return len(r.Name) > 0 && unicode.IsLower(rune(r.Name[0]))
 		},
 		"OrderRules": orderRules,
+		"Ident":      identifier,
 		"HaveBackrefs": func(def *lexer.StatefulDefinition, state string) bool {
 			for _, rule := range def.Rules()[state] {
 				if codegenBackrefRe.MatchString(rule.Pattern) {
@@ -174,7 +176,7 @@ func generateRegexMatch(w io.Writer, lexerName, name, pattern string) error {
 	}
 	re = re.Simplify()
 	fmt.Fprintf(w, "// %s\n", re)
-	fmt.Fprintf(w, "func match%s%s(s string, p int, backrefs []string) (groups [%d]int) {\n", lexerName, name, 2*re.MaxCap()+2)
+	fmt.Fprintf(w, "func match%s%s(s string, p int, backrefs []string) (groups [%d]int) {\n", lexerName, identifier(name), 2*re.MaxCap()+2)
 	flattened := flatten(re)
 
 	// Fast-path a single literal.
@@ -406,6 +408,19 @@ func generateRegexMatch(w io.Writer, lexerName, name, pattern string) error {
 	fmt.Fprintf(w, "return\n")
 	fmt.Fprintf(w, "}\n")
 	return nil
+}
+
+// identifier turns a rule name into something that can be part of a Go identifier: rule names are arbitrary strings.
+func identifier(name string) string {
+	out := strings.Builder{}
+	for _, r := range name {
+		if r == '_' || unicode.IsLetter(r) || unicode.IsDigit(r) {
+			out.WriteRune(r)
+		} else {
+			fmt.Fprintf(&out, "_x%x_", r)
+		}
+	}
+	return out.String()
 }
 
 // foldKeepsWidth reports whether every text that matches the literal case-insensitively has the literal's length
